@@ -1600,6 +1600,46 @@ pub fn check_c12(ix: &Ix<'_>, v: &mut Vec<Violation>) {
             }
         }
     }
+    // (3') reading resumes when handlers finish: at the quiescence of the scripted part (some handlers
+    // still held) the endpoint must not sit on a delivered publish while it is strictly below both limits.
+    // Judged only when nothing else can hold the reader back: every running handler has read its whole
+    // payload, no protocol handler is running, the connection is up, no fault was injected.
+    if let Some(settle) = ix.settle_seq
+        && matches!(ix.out.plan.role, crate::world::Role::S3)
+        && !ix.out.budget_hit
+        && ix.out.panic.is_none()
+        && ix.fault("fin") + ix.fault("rst") + ix.fault("wr_err") == 0
+        && !ix.stops.iter().any(|s| s.0 <= settle)
+        && !ix.conn_done.iter().any(|c| c.0 <= settle)
+        && !ix.ep_closed.iter().any(|c| c.0 <= settle)
+    {
+        let size_of = |topic: &str| ix.sent.iter().find(|s| matches!(&s.pkt, Some(Pkt::Publish(p)) if p.topic == topic)).map_or(0, |s| remaining_len(s.len));
+        let running_at: Vec<&G> = ix.gates.iter().filter(|g| g.conn == conn && g.enter < settle && g.exit.as_ref().is_none_or(|x| x.0 > settle) && g.dropped.is_none_or(|d| d > settle)).collect();
+        let pubs_running: Vec<&&G> = running_at.iter().filter(|g| g.kind == GateKind::Publish).collect();
+        let quiet = running_at.iter().all(|g| g.kind == GateKind::Publish)
+            && pubs_running.iter().all(|g| match (&g.desc, &g.payload_end) {
+                (GateDesc::Publish(p), Some((total, _digest, None))) => *total == p.declared_len,
+                _ => false,
+            });
+        let bytes: usize = pubs_running.iter().map(|g| if let GateDesc::Publish(p) = &g.desc { size_of(&p.topic) } else { 0 }).sum();
+        let below_count = count_limit == 0 || pubs_running.len() < count_limit;
+        let below_size = size_limit == 0 || bytes < size_limit;
+        if quiet && below_count && below_size {
+            for s in ix.sent.iter().filter(|s| s.conn == conn && !s.corrupt && s.delivered.is_some_and(|d| d < settle)) {
+                let Some(Pkt::Publish(p)) = &s.pkt else { continue };
+                if !ix.pub_gates(conn).any(|(g, seen)| seen.topic == p.topic && g.enter < settle) {
+                    viol(
+                        v,
+                        "C12",
+                        format!("C12/reading-not-resumed/{role}"),
+                        format!("PUBLISH {:?} was delivered at step {:?} and never read although only {} handlers holding {bytes} packet bytes are running (max_receive {count_limit}, max_receive_size {size_limit}) and everything had gone quiet", p.topic, s.delivered, pubs_running.len()),
+                        settle,
+                    );
+                    return;
+                }
+            }
+        }
+    }
     // (3) the limits never wedge the connection: once handlers complete, everything the peer sent is
     // handled (including the remaining chunks of a payload streamed while the limit was reached)
     let refused_or_stopped = ix.stops.iter().any(|s| s.1 == conn) || ix.conn_ended(conn);
